@@ -125,30 +125,46 @@ def pickOutput (outs : List (Nat × OutTuple)) : Option Nat :=
 
 def allOuts (st : St) : List Nat := List.range st.queues.length
 
+/-- gate and deferred evaluation of `send_maybe`: (`ret`, payload afterwards, outputs) -/
+def gate (st : St) : Option Bool × Payload × List Out :=
+  if (!st.doSend || st.clients.isEmpty) && !st.push then (some false, st.payload, [])
+  else match st.payload with
+    | .topics _ => (none, st.payload, [])
+    | .deferred none => (some true, .deferred none, [.evaluated])
+    | .deferred (some ts) => (none, .topics ts, [.evaluated])
+
+/-- HELLO only if no data message is about to go to ALL clients -/
+def helloOuts (st : St) (ret : Option Bool) : List Out :=
+  if st.doHello && (ret.isSome || st.balance) then (allOuts st).map Out.hello else []
+
+def payloadTopics : Payload → List (String × Nat)
+  | .topics ts => ts
+  | .deferred _ => []
+
+/-- outputs a publish goes to: all, or (balanced) the eligible one with the oldest request -/
+def pubTargets (st : St) : List Nat :=
+  if st.balance then (match pickOutput st.outputs with | some o => [o] | none => []) else allOuts st
+
+/-- `bal` of the envelope -/
+def envBal (st : St) : Nat := if st.balance then 1 else if st.balanced ≠ 0 then st.balanced + 1 else 0
+
+/-- the publishing tail of `send_maybe` -/
+def publish (st : St) (ts : List (String × Nat)) : St × List Out :=
+  let pubs := pubTargets st
+  let clients := st.clients.map fun (fid, c) =>
+    if !st.balance || pubs.contains c.out then (fid, { c with requested := false }) else (fid, c)
+  let names := ts.map (·.1)
+  let msgs : List Out := ts.flatMap (fun (t, b) => pubs.map fun o => Out.pub o (frame0 t) st.msgId names (envBal st) b)
+  let hb : List Out := pubs.map fun o => Out.pub o "//" st.msgId names (envBal st) 0
+  ({ st with clients := clients, minSendId := st.msgId + 1 }, msgs ++ hb)
+
 /-- `send_maybe()`; the Bool is its return value -/
 def sendMaybe (st : St) : St × List Out × Bool :=
-  -- gate and deferred evaluation
-  let (ret, payload, o0) : Option Bool × Payload × List Out :=
-    if (!st.doSend || st.clients.isEmpty) && !st.push then (some false, st.payload, [])
-    else match st.payload with
-      | .topics _ => (none, st.payload, [])
-      | .deferred none => (some true, .deferred none, [.evaluated])
-      | .deferred (some ts) => (none, .topics ts, [.evaluated])
-  let hello : List Out :=
-    if st.doHello && (ret.isSome || st.balance) then (allOuts st).map Out.hello else []
-  let st := { st with doHello := false, payload := payload }
-  match ret with
-  | some r => (st, o0 ++ hello, r)
-  | none =>
-    let ts := match payload with | .topics ts => ts | .deferred _ => []
-    let pubs : List Nat := if st.balance then (match pickOutput st.outputs with | some o => [o] | none => []) else allOuts st
-    let clients := st.clients.map fun (fid, c) =>
-      if !st.balance || pubs.contains c.out then (fid, { c with requested := false }) else (fid, c)
-    let bal : Nat := if st.balance then 1 else if st.balanced ≠ 0 then st.balanced + 1 else 0
-    let names := ts.map (·.1)
-    let msgs : List Out := ts.flatMap (fun (t, b) => pubs.map fun o => Out.pub o (frame0 t) st.msgId names bal b)
-    let hb : List Out := pubs.map fun o => Out.pub o "//" st.msgId names bal 0
-    ({ st with clients := clients, minSendId := st.msgId + 1 }, o0 ++ hello ++ msgs ++ hb, true)
+  let g := gate st
+  let st1 := { st with doHello := false, payload := g.2.1 }
+  match g.1 with
+  | some r => (st1, g.2.2 ++ helloOuts st g.1, r)
+  | none => ((publish st1 (payloadTopics g.2.1)).1, g.2.2 ++ helloOuts st g.1 ++ (publish st1 (payloadTopics g.2.1)).2, true)
 
 inductive Ev where
   | deliver (j : Nat) (r : Req)
@@ -161,35 +177,48 @@ deriving Repr
 /-- the call is over: `return ZMQStateRecv(self.min_send_id)` -/
 def endCall (st : St) : St × List Out := ({ st with inCall := false }, [.ret st.minSendId])
 
+def stepDeliver (st : St) (j : Nat) (r : Req) : St × List Out :=
+  match st.queues[j]? with
+  | none => (st, [])
+  | some q => ({ st with queues := st.queues.set j (q ++ [r]) }, [])
+
+def beginWith (st : St) (k : Int) (b : Nat) (payload : Payload) (push : Bool) : St :=
+  { st with inCall := true, msgId := k, balanced := b, doSend := false, doHello := false,
+            outputs := [], payload := payload, push := push }
+
+def stepBegin (st : St) (state : Option (Int × Nat)) (payload : Payload) (push : Bool) : St × List Out :=
+  if st.inCall then (st, []) else
+  match state with
+  | none => (beginWith st st.minSendId 0 payload push, [])
+  | some (k, b) =>
+    if k < st.minSendId then (st, [.ret st.minSendId])        -- older than what was already sent: discard
+    else (beginWith st k b payload push, [])
+
+def stepHandle (st : St) (j : Nat) (t : Int) : St × List Out :=
+  if ¬ st.inCall then (st, []) else
+  match st.queues[j]? with
+  | none => (st, [])
+  | some [] => (st, [])
+  | some (r :: q) =>
+    let st1 := { st with queues := st.queues.set j q }
+    if (onReq st1 j r t).2.2 = .ffwd then
+      ((endCall (onReq st1 j r t).1).1, (onReq st1 j r t).2.1 ++ (endCall (onReq st1 j r t).1).2)
+    else ((onReq st1 j r t).1, (onReq st1 j r t).2.1)
+
+def stepTrySend (st : St) : St × List Out :=
+  if ¬ st.inCall then (st, []) else
+  if (sendMaybe st).2.2 then ((endCall (sendMaybe st).1).1, (sendMaybe st).2.1 ++ (endCall (sendMaybe st).1).2)
+  else ((sendMaybe st).1, (sendMaybe st).2.1)
+
+def stepTimeout (st : St) : St × List Out :=
+  if ¬ st.inCall then (st, []) else ({ st with inCall := false }, [.retNone])
+
 def step (st : St) : Ev → St × List Out
-  | .deliver j r =>
-    match st.queues[j]? with
-    | none => (st, [])
-    | some q => ({ st with queues := st.queues.set j (q ++ [r]) }, [])
-  | .begin state payload push =>
-    if st.inCall then (st, []) else
-    match state with
-    | none => ({ st with inCall := true, msgId := st.minSendId, balanced := 0, doSend := false, doHello := false,
-                         outputs := [], payload := payload, push := push }, [])
-    | some (k, b) =>
-      if k < st.minSendId then (st, [.ret st.minSendId])        -- older than what was already sent: discard
-      else ({ st with inCall := true, msgId := k, balanced := b, doSend := false, doHello := false,
-                      outputs := [], payload := payload, push := push }, [])
-  | .handle j t =>
-    if ¬ st.inCall then (st, []) else
-    match st.queues[j]? with
-    | none => (st, [])
-    | some [] => (st, [])
-    | some (r :: q) =>
-      let st := { st with queues := st.queues.set j q }
-      let (st', o, res) := onReq st j r t
-      if res = .ffwd then let (st'', o') := endCall st'; (st'', o ++ o') else (st', o)
-  | .trySend =>
-    if ¬ st.inCall then (st, []) else
-    let (st', o, sent) := sendMaybe st
-    if sent then let (st'', o') := endCall st'; (st'', o ++ o') else (st', o)
-  | .timeout =>
-    if ¬ st.inCall then (st, []) else ({ st with inCall := false }, [.retNone])
+  | .deliver j r => stepDeliver st j r
+  | .begin state payload push => stepBegin st state payload push
+  | .handle j t => stepHandle st j t
+  | .trySend => stepTrySend st
+  | .timeout => stepTimeout st
 
 def run (st : St) (evs : List Ev) : St × List Out :=
   evs.foldl (fun (acc : St × List Out) e => let (s, o) := step acc.1 e; (s, acc.2 ++ o)) (st, [])
